@@ -47,7 +47,7 @@ class Summarizer(Monitor):
         except BaseException as e:
             _reraise_if_harness(e)
         ret = read_solution(outcome["result"]) if outcome.get("result") is not None else None
-        lst.append({"op": op["op"], "k": op.get("k", op.get("n")), "evq": ({k: v for k, v in op.items() if k != "a"} if op["op"] in ("evq", "sdq", "setp", "clone") else None),
+        lst.append({"op": op["op"], "k": op.get("k", op.get("n")), "evq": ({k: v for k, v in op.items() if k != "a"} if op["op"] in ("evq", "sdq", "setp", "clone", "narrow_box") else None),
                     "evq_answer": outcome.get("evq"),
                     "raised": (outcome.get("raised") or "").split(":")[0] or None,
                     "n_calls": len(calls), "calls_h": core.short_hash(calls), "sd_h": core.short_hash(sd), "n_items": len(sd),
@@ -454,6 +454,7 @@ class C12(SolverSuite):
 
     def gen_plan(self, rng, tier, run_seed):
         n_act = rng.choice([2, 2, 2, 3, 3, 4])
+        moved = False
         actors = {}
         lists = []
         for i in range(n_act):
@@ -475,7 +476,25 @@ class C12(SolverSuite):
             L1 = rng.randint(2, 30)
             G.share_problem(rng, actors, "S0", "S1", max_iters=L1)
             lists[1] = G.gen_single_ops(rng, "S1", rng.choice([0, rng.randint(0, L1)]), with_solve=rng.random() < 0.8, results_prob=0.3)
-            if rng.random() < 0.5 and actors["S0"].get("lower") is not None:
+            if rng.random() < 0.3 and actors["S0"].get("lower") is not None and actors["S0"]["objective"]["N"] <= 3:
+                # one Problem object re-used for the next region: S0 solves and refines on its box, then the caller moves the
+                # Problem's box and builds S1 on it, which solves and refines there (whatever the library remembers about a
+                # Problem must not outlive a change of its public bounds)
+                lo, up = actors["S0"]["lower"], actors["S0"]["upper"]
+                sh = rng.choice([0.5, 1.0, 1.5, -1.0])
+                nlo = [float("%.6g" % (l + sh * (u_ - l))) for l, u_ in zip(lo, up)]
+                nup = [float("%.6g" % (u_ + sh * (u_ - l))) for l, u_ in zip(lo, up)]
+                actors["S0"]["params"]["refineSolution"] = True
+                actors["S1"]["params"]["refineSolution"] = True
+                actors["S1"]["lower"], actors["S1"]["upper"] = nlo, nup
+                actors["S0"].pop("bounds_type", None)
+                actors["S1"].pop("bounds_type", None)
+                s0 = [o for o in lists[0] if o["op"] in ("create", "iterate")][:3] + [{"a": "S0", "op": "solve"}]
+                lists[0] = s0 + [{"a": "S0", "op": "narrow_box", "lower": nlo, "upper": nup, "rebind": rng.random() < 0.6}, {"a": "S1", "op": "create"},
+                                 {"a": "S1", "op": "solve"}, {"a": "S0", "op": "results"}]
+                lists[1] = []
+                moved = True
+            elif rng.random() < 0.5 and actors["S0"].get("lower") is not None:
                 # ... and narrows the box of ITS solver's evolvent at some moment
                 lo, up = actors["S0"]["lower"], actors["S0"]["upper"]
                 nlo = [float("%.4g" % (l + rng.uniform(0.0, 0.3) * (u_ - l))) for l, u_ in zip(lo, up)]
@@ -530,7 +549,7 @@ class C12(SolverSuite):
             lists.insert(0, [{"a": aid, "op": "create"}] + [{"a": aid, "op": "iterate", "k": rng.randint(1, 3)} for _ in range(rng.randint(0, 2))])
         ops = interleave(rng, lists)
         plan = G.base_plan(self.prop, run_seed, actors, ops, clock=G.gen_clock(rng))
-        if rng.random() < 0.6:
+        if rng.random() < 0.6 and not moved:
             plan["nested"] = gen_nested(rng, plan, max_entries=4)
             slow = {aid for aid, a in actors.items() if a.get("params_obj") == "default" and a["objective"]["N"] > 1}
             for n in plan["nested"]:
@@ -546,7 +565,7 @@ class C12(SolverSuite):
             shared = {"kind": "console", "mode": rng.choice(["full", "result", "custom"]), "iters": rng.choice([1, 3]), "shared": "L"}
             actors["S0"].setdefault("listeners", []).append(dict(shared))
             actors["S1"].setdefault("listeners", []).append(dict(shared))
-        if rng.random() < 0.15:
+        if rng.random() < 0.15 and not moved:
             # helper-function style: the caller keeps the Solution it got and lets go of the Solver; other solvers run afterwards
             aid = rng.choice(sorted(actors))
             pos = [i for i, o in enumerate(plan["ops"]) if o["a"] == aid and o["op"] in ("solve", "results")]
@@ -555,11 +574,17 @@ class C12(SolverSuite):
                 plan["ops"] = plan["ops"][:i + 1] + [{"a": aid, "op": "drop"}] + [o for o in plan["ops"][i + 1:] if o["a"] != aid]
                 plan["nested"] = [n for n in plan.get("nested", []) if n["host"] != aid and all(o["a"] != aid for o in n["ops"])]
                 # ... and more solvers are made and run afterwards (they allocate many trial items)
+                both_refine = rng.random() < 0.4 and not actors[aid].get("params_obj")
+                if both_refine:
+                    # the dropped solver had refined its result, and so will the ones made afterwards (whatever the library
+                    # remembers about a Problem must die with it: the next Problem may live at the same address)
+                    actors[aid]["params"]["refineSolution"] = True
                 for j in range(rng.randint(1, 2)):
                     nid = "T%d" % j
-                    actors[nid] = G.gen_actor(rng, max_iters=30, refine=False, shipped_prob=0.0)
+                    actors[nid] = G.gen_actor(rng, max_iters=30, refine=both_refine, shipped_prob=0.0)
                     actors[nid]["params"]["itersLimit"] = rng.randint(5, 40)
-                    plan["ops"] += [{"a": nid, "op": "create"}, {"a": nid, "op": "iterate", "k": rng.randint(3, 30)}, {"a": nid, "op": "results"}]
+                    plan["ops"] += [{"a": nid, "op": "create"}, {"a": nid, "op": "iterate", "k": rng.randint(3, 30)},
+                                    {"a": nid, "op": "solve" if both_refine else "results"}]
         if rng.random() < 0.12:
             # one solver's objective fails once (its caller catches it, or its Solve contains it) while the others carry on
             aid = rng.choice(sorted(a for a in actors if actors[a]["objective"]["N"] <= 5))
@@ -607,7 +632,7 @@ class C12(SolverSuite):
                     o["k"] = s["k"]
                 if s["op"] == "refine":
                     o["n"] = s["k"]
-                if s["op"] in ("evq", "sdq", "setp", "clone"):
+                if s["op"] in ("evq", "sdq", "setp", "clone", "narrow_box"):
                     o = dict(s["evq"])
                     o.pop("keep", None)      # alone, nobody keeps driving the original of a deep copy
                 ops.append(o)
